@@ -938,6 +938,22 @@ def corrcoef(x, y):
     return ndarray(o, _raw=True)
 
 
+def isclose(a, b, rtol=Fr(1, 100000), atol=Fr(1, 100000000), equal_nan=False):
+    """|a - b| <= atol + rtol * |b|  (NumPy's definition, element-wise)"""
+    rtol = to_fr(rtol) if not isinstance(rtol, (Fr, S)) else rtol
+    atol = to_fr(atol) if not isinstance(atol, (Fr, S)) else atol
+
+    def f(x, y):
+        ax = core.sabs(x - y) if isinstance(x - y, S) else abs(x - y)
+        ay = core.sabs(y) if isinstance(y, S) else abs(y)
+        return ax <= atol + rtol * ay
+    return _ew2(f, a, b)
+
+
+def allclose(a, b, rtol=Fr(1, 100000), atol=Fr(1, 100000000)):
+    return all_(isclose(a, b, rtol, atol))
+
+
 class _Finfo:
     eps = Fr(1, 2 ** 52)
 
@@ -965,7 +981,7 @@ def make_numpy():
                      cross=cross, linalg=_Linalg, hypot=hypot, divide=divide, finfo=finfo, cumsum=cumsum, diff=diff,
                      argsort=argsort, sort=sort, unique=unique, where=where, argwhere=argwhere,
                      searchsorted=searchsorted, concatenate=concatenate, hstack=hstack, column_stack=column_stack,
-                     append=append, delete=delete, array_equal=array_equal, polyfit=polyfit, corrcoef=corrcoef,
+                     append=append, delete=delete, array_equal=array_equal, isclose=isclose, allclose=allclose, polyfit=polyfit, corrcoef=corrcoef,
                      errstate=_Errstate).items():
         setattr(m, k, v)
     m.nan = None
